@@ -219,6 +219,21 @@ claim("C18", "proof",
       "one open known finding (generated loop counter adds CS0004/CS0008).",
       "Lean 4 proof (completeness of both removal passes, tuple semantics, component expansion shape) + node-for-node correspondence + expansion oracle", "5 (C18)")
 
+claim("C09", "proof",
+      "Lean 4 theorems (Props/C09.lean) on Model/Taint.lean = the analysis (taint/constraint steps, closure loop, sink set, classification of "
+      "side_effect_analysis.rs over the facts of the SSA CFG) + a machine whose events are the property's effects. For EVERY program (any CFG, "
+      "loops included), every step count, every claimed variable x, every oracle supplying a fresh replacement value at each execution of an "
+      "assignment to x, and initial environments that differ only inside x's influence (covers claimed parameters): the event traces (values "
+      "written to input/output signals, constraints mentioning them, assert/return values, dimensions, branch decisions) of the original and "
+      "the perturbed run are equal (lock-step simulation); multi_step_taint = reachability; the sink set covers every observed read; a claimed "
+      "variable reaches no sink; `unread` means no statement reads it. Tie per run: facts, taint map, constraint map and CS0006/7/8 claims "
+      "of the real passes = model on the same CFG, facts well formed (L2); read/written sets of every statement = an independent derivation "
+      "from the IR tree, and every real claim is perturbed in a reference interpreter under random valuations (L1).",
+      "Lean kernel + standard axioms; the semantic functions of the machine's instructions depend only on the declared reads — that the real "
+      "read/written sets are complete is checked per statement (L1), not proved; the closure theorems are conditional on the loop exiting "
+      "through its subset test (the driver reports an exhausted budget); function calls / component outputs are not executed by the oracle.",
+      "Lean 4 proof (lock-step non-interference for all programs and replacements; closure = reachability; sink coverage) + correspondence + perturbation oracle", "5 (C09)")
+
 ALL = ["C%02d" % i for i in range(1, 21)]
 def main():
     checks = []
